@@ -20,11 +20,15 @@ func (x *Exec) libError(what string) *IfaceV {
 	return x.newError(x.fresh("errmsg."+what, SStr), nil)
 }
 
-func intToStr(i *Term) *Term {
+func (x *Exec) intToStr(i *Term) *Term {
 	if i.IsConst() {
-		return FromInt(i) // FromInt handles only >= 0 for symbolic; constants below
+		return FromInt(i) // negative constants are handled by the caller
 	}
-	return Ite(Lt(i, IntC(0)), Concat(StrC("-"), FromInt(Sub(IntC(0), i))), FromInt(i))
+	// fork on the sign so that the result is a plain from_int term
+	if x.Branch(Lt(i, IntC(0))) {
+		return Concat(StrC("-"), FromInt(Sub(IntC(0), i)))
+	}
+	return FromInt(i)
 }
 
 func (x *Exec) fmtValue(v Value, verb byte) *Term {
@@ -52,7 +56,7 @@ func (x *Exec) fmtValue(v Value, verb byte) *Term {
 			if a.IsConst() && a.I < 0 {
 				return StrC("-" + FromInt(IntC(-a.I)).S)
 			}
-			return intToStr(a)
+			return x.intToStr(a)
 		default:
 			return Ite(a, StrC("true"), StrC("false"))
 		}
@@ -232,6 +236,12 @@ func registerModels(e *Engine) {
 }
 
 func InReOrConst(s *Term, class string) *Term {
+	if s.Op == "from_int" && (class == "int" || class == "index") {
+		if class == "index" {
+			return And(Le(IntC(0), s.Args[0]), Le(s.Args[0], IntC(99999)))
+		}
+		return Le(IntC(0), s.Args[0])
+	}
 	if s.IsConst() {
 		return BoolC(matchClassConcrete(class, s.S))
 	}
